@@ -31,8 +31,9 @@ template <typename Float>
     auto afterDecimalPoint = false;
     auto leadingSpaces     = true;
 
-    auto const* ptr = str.data();
-    for (; *ptr != '\0'; ++ptr) {
+    auto const* ptr        = str.data();
+    auto const* const last = str.data() + str.size();
+    for (; ptr != last and *ptr != '\0'; ++ptr) {
         if (etl::isspace(*ptr) && leadingSpaces) {
             continue;
         }
